@@ -44,6 +44,13 @@ class _Clock:
         return self.loop.time()
 
 
+def _is_44(S: bytes, retry_after: int) -> bool:
+    """Status 44 carrying the configured retry hint: one header line, nothing after it; the wording is free."""
+    import re
+
+    return re.fullmatch(rb"44 [^\r\n]{0,1024}\r\n", S) is not None and re.search(rb"(?<!\d)%d(?!\d)" % retry_after, S[3:]) is not None
+
+
 def case_st():
     return st.fixed_dictionaries({
         "capacity": st.one_of(st.integers(0, 5), st.integers(1, 50)),
@@ -325,7 +332,7 @@ def _served_by_start_server(case, ADDR):
     for who, t, S in out:
         if S.startswith(b"20 "):
             served.setdefault(who, []).append(Fraction(t).limit_denominator(1000))
-        elif S == b"44 Rate limit exceeded. Retry after 30 seconds\r\n":
+        elif _is_44(S, 30):
             refusals += 1
         else:
             return viol("unexpected-answer", f"{S[:60]!r}", served=0, refusals=refusals, gone=0)
@@ -435,7 +442,7 @@ def run_served(case: dict):
                 # a fresh address has its full allowance (capacity >= 1), whatever the other addresses did
                 return viol("first-request-of-an-address-refused", f"address {ev[1]} ({ADDR[ev[1]]}) got {S[:50]!r} on its first request; "
                             f"earlier traffic came from other addresses only", **info)
-        if ev[2] == "stay" and not (S.startswith(b"20 ") or S == b"44 Rate limit exceeded. Retry after 30 seconds\r\n"):
+        if ev[2] == "stay" and not (S.startswith(b"20 ") or _is_44(S, 30)):
             return viol("unexpected-answer", f"{S[:60]!r}", **info)
     return ok(**info)
 
